@@ -25,8 +25,7 @@ res = json.loads(p.stdout)
 for k, r in enumerate(res):
     print(f"after {hist[k]}:")
     for i, o in enumerate(r.get("final", [])):
-        print(f"   c{i}: simulator=(code {o[1]}, seed {o[3] if o[2] else None})  random_seed arg={o[names.index('random_seed') + 10 - 10:][0:0] or ''}" if False else
-              f"   c{i}: simulator=(code {o[1]}, random_seed {o[3] if o[2] else None})   full={o}")
+        print(f"   c{i}: simulator=(code {o[1]}, random_seed {o[3] if o[2] else None})   full={o}")
 print("layout of `full`:", meta["run_names"])
 v = res[-1].get("viol", [])
 print(f"{len(v)} violation(s)")
